@@ -258,23 +258,35 @@ def _cnot_on_two_bosonic_qubits(modes):
     return instructions
 
 
-def _get_condition_function(qubit_index, measurement_value):
+def _get_condition_function(outcome_index, measurement_value, negate=False):
     """Returns a condition for conditional operations based on measurement outcomes.
 
-    This function converts the qubit index to the corresponding dual-rail mode
-    indices and checks the measurement outcomes of those modes to determine the
-    qubit measurement outcome.
+    The measurement outcomes of the two modes of the measured dual-rail qubit are
+    located at `outcome_index` and `outcome_index + 1` in the tuple of all measurement
+    outcomes. When `outcome_index` is `None`, the classical bit has not been written by
+    any measurement, and its value is 0.
     """
 
     def condition(outcomes):
-        two_mode_outcomes = [(outcomes[qubit_index * 2], outcomes[qubit_index * 2 + 1])]
-        qubit_outcome = get_bosonic_qubit_samples(two_mode_outcomes)[0][0]
-        return qubit_outcome == measurement_value
+        if outcome_index is None:
+            qubit_outcome = 0
+        else:
+            two_mode_outcomes = [(outcomes[outcome_index], outcomes[outcome_index + 1])]
+            qubit_outcome = get_bosonic_qubit_samples(two_mode_outcomes)[0][0]
+
+        return (qubit_outcome == measurement_value) != negate
 
     return condition
 
 
-def _map_qiskit_instr_to_pq(qiskit_instruction, modes, aux_modes):
+def _map_qiskit_instr_to_pq(
+    qiskit_instruction,
+    modes,
+    aux_modes,
+    qubit_indices=None,
+    clbit_index=None,
+    outcome_indices=None,
+):
     instruction_name = qiskit_instruction.name
     instructions = []
     if instruction_name == "h":
@@ -315,15 +327,33 @@ def _map_qiskit_instr_to_pq(qiskit_instruction, modes, aux_modes):
         pq_instruction = pq.ParticleNumberMeasurement().on_modes(modes[0], modes[1])
         instructions.append(pq_instruction)
     elif instruction_name == "if_else":
-        true_branch_instructions = qiskit_instruction.operation.params[0]
+        operation = qiskit_instruction.operation
 
-        cond = qiskit_instruction.operation.condition
+        if qubit_indices is None or clbit_index is None:
+            raise ValueError("Nested conditional blocks are not supported.")
 
-        condition = _get_condition_function(cond[0]._index, cond[1])
-        for inner_instr_qiskit in true_branch_instructions:
-            instr_list = _map_qiskit_instr_to_pq(inner_instr_qiskit, modes, aux_modes)
-            for instr in instr_list:
-                instructions.append(instr.when(condition))
+        outcome_index = (outcome_indices or {}).get(clbit_index)
+
+        for negate, block in enumerate(operation.params[:2]):
+            if block is None:
+                continue
+
+            condition = _get_condition_function(
+                outcome_index, operation.condition[1], negate=bool(negate)
+            )
+
+            for inner_instr_qiskit in block:
+                # NOTE: The qubits of the block are the qubits of the `if_else`
+                # instruction, in the same order.
+                inner_qubit = qubit_indices[
+                    block.find_bit(inner_instr_qiskit.qubits[0]).index
+                ]
+                inner_modes = [2 * inner_qubit, 2 * inner_qubit + 1]
+                instr_list = _map_qiskit_instr_to_pq(
+                    inner_instr_qiskit, inner_modes, []
+                )
+                for instr in instr_list:
+                    instructions.append(instr.when(condition))
     else:
         raise ValueError(
             f"Unsupported instruction '{instruction_name}' in the quantum circuit."
@@ -354,6 +384,8 @@ def _encode_dual_rail_from_qiskit(qc):
     instructions.extend(preparations)
 
     cz_idx = 0
+    outcome_indices = {}
+    num_measured_qubits = 0
     for instr_qiskit in qc.data:
         qubit_indices = [qc.find_bit(q).index for q in instr_qiskit.qubits]
 
@@ -373,8 +405,27 @@ def _encode_dual_rail_from_qiskit(qc):
             qubit = qubit_indices[0]
             modes = [2 * qubit, 2 * qubit + 1]
             aux_modes = []
-        mapped_instructions = _map_qiskit_instr_to_pq(instr_qiskit, modes, aux_modes)
+        clbit_index = None
+        if instr_qiskit.name == "if_else":
+            clbit_index = qc.find_bit(instr_qiskit.operation.condition[0]).index
+
+        mapped_instructions = _map_qiskit_instr_to_pq(
+            instr_qiskit,
+            modes,
+            aux_modes,
+            qubit_indices=qubit_indices,
+            clbit_index=clbit_index,
+            outcome_indices=outcome_indices,
+        )
         instructions.extend(mapped_instructions)
+
+        if instr_qiskit.name == "measure":
+            # NOTE: The outcomes are collected in the order of the measurements, two
+            # modes per measured qubit.
+            outcome_indices[qc.find_bit(instr_qiskit.clbits[0]).index] = (
+                2 * num_measured_qubits
+            )
+            num_measured_qubits += 1
 
     return instructions
 
